@@ -334,7 +334,7 @@ def imsc_inline(rng, regions, styles, depth):
     for _ in range(rng.randrange(0, 4)):
         k = rng.random()
         if k < 0.4: out.append(xml_text(pick(rng, WORDS + ["  two  spaces  ", "\n  line\n  break\n"])))
-        elif k < 0.5: out.append("<br/>" if chance(rng, 0.8) else "<br %s>x</br>" % " ".join(imsc_timing(rng, 0.3)))
+        elif k < 0.5: out.append("<br/>" if chance(rng, 0.8) else "<br %s>%s</br>" % (" ".join(imsc_timing(rng, 0.3) + imsc_style_attrs(rng, rng.choice([0, 0, 1]))), pick(rng, ["", "x", "<span>y</span>"])))
         elif k < 0.56: out.append(imsc_set(rng))
         elif k < 0.66 and depth < 3:
             # ruby
@@ -411,6 +411,28 @@ def dedup_attrs(doc):
         for a in re.finditer(r"([\w:.-]+)=\"([^\"]*)\"", m.group(2)): seen.setdefault(a.group(1), a.group(2))
         return "<" + m.group(1) + "".join(' %s="%s"' % kv for kv in seen.items()) + m.group(3) + ">"
     return _TAG.sub(fix, doc)
+
+
+def style_matrix():
+    """every sample value of every style attribute on every element kind that can carry it (directly, through <set>, <initial>, <style>)"""
+    for name in STYLE_NAMES:
+        for v in STYLE_VALUES[name]:
+            a = '%s="%s"' % (name, xml_attr(v))
+            for el in ("br", "span", "p", "div", "body", "region", "set-br", "set-span", "set-p", "set-region", "initial", "style"):
+                head = ""; body = '<body><div><p>a<span>b</span><br/>c</p></div></body>'
+                if el == "br": body = '<body><div><p>a<br %s/>c</p></div></body>' % a
+                elif el == "span": body = '<body><div><p>a<span %s>b</span></p></div></body>' % a
+                elif el == "p": body = '<body><div><p %s>a</p></div></body>' % a
+                elif el == "div": body = '<body><div %s><p>a</p></div></body>' % a
+                elif el == "body": body = '<body %s><div><p>a</p></div></body>' % a
+                elif el == "region": head = '<head><layout><region xml:id="r" %s/></layout></head>' % a; body = '<body region="r"><div><p>a</p></div></body>'
+                elif el == "set-br": body = '<body><div><p>a<br><set begin="1s" %s/></br>c</p></div></body>' % a
+                elif el == "set-span": body = '<body><div><p>a<span><set begin="1s" %s/>b</span></p></div></body>' % a
+                elif el == "set-p": body = '<body><div><p><set begin="1s" end="2s" %s/>a</p></div></body>' % a
+                elif el == "set-region": head = '<head><layout><region xml:id="r"><set begin="1s" %s/></region></layout></head>' % a; body = '<body region="r"><div><p>a</p></div></body>'
+                elif el == "initial": head = '<head><styling><initial %s/></styling></head>' % a
+                elif el == "style": head = '<head><styling><style xml:id="s" %s/></styling></head>' % a; body = '<body style="s"><div><p>a</p></div></body>'
+                yield el, ('<tt xml:lang="en" %s>%s%s</tt>' % (NS, head, body)).encode()
 
 
 GENERATORS = {"srt": gen_srt, "vtt": gen_vtt, "scc": gen_scc, "stl": gen_stl, "imsc": gen_imsc}
